@@ -670,7 +670,44 @@ func (sc *siteCollector) let(n *hs.Let, cx *fctx, global bool) {
 	sc.expr(&n.X, cx)
 }
 
+// useAt proposes a use of a name at a position of a block where its binder is not (or no
+// longer) in scope. Whether the name denotes something else there is for reftype to say.
+func (sc *siteCollector) useAt(b *hs.Block, pos int, name, mut string, cx *fctx) {
+	sc.add(reftype.RUnknownIdent, mut, cx, nil, func() {
+		b.Stmts = append(b.Stmts[:pos:pos], append([]hs.Stmt{hs.Println(hs.V(name))}, b.Stmts[pos:]...)...)
+	})
+}
+
 func (sc *siteCollector) stmt(b *hs.Block, i int, cx *fctx) {
+	// names bound by this statement for a nested scope only
+	switch n := b.Stmts[i].(type) {
+	case *hs.For:
+		sc.useAt(b, i+1, n.Var, "use-after-scope", cx)
+	case *hs.ExprStmt:
+		switch x := n.X.(type) {
+		case *hs.Try:
+			sc.useAt(b, i+1, x.Var, "use-after-scope", cx)
+		case *hs.BlockExpr:
+			for _, s := range x.B.Stmts {
+				if l, ok := s.(*hs.Let); ok {
+					sc.useAt(b, i+1, l.Name, "use-after-scope", cx)
+					break
+				}
+			}
+		case *hs.If:
+			for _, s := range x.Then.Stmts {
+				if l, ok := s.(*hs.Let); ok {
+					sc.useAt(b, i+1, l.Name, "use-after-scope", cx)
+					break
+				}
+			}
+		}
+	case *hs.Let:
+		if fl, ok := n.X.(*hs.FnLit); ok && len(fl.Params) > 0 {
+			sc.useAt(b, i+1, fl.Params[0].Name, "use-after-scope", cx)
+		}
+		sc.useAt(b, i, n.Name, "use-before-definition", cx)
+	}
 	switch n := b.Stmts[i].(type) {
 	case *hs.Let:
 		sc.let(n, cx, false)
